@@ -53,6 +53,11 @@ func genEmail(rng *rand.Rand, thorough bool) {
 			}
 		}
 	}
+	// multi-byte units in local part and domain
+	multiByteUnits(func(u string) {
+		emit("a" + u + "@bc.de")
+		emit("ab@c" + u + ".de")
+	})
 	// length families around 64 / 63 / 253 / 254
 	for ll := 1; ll <= 70; ll++ {
 		if ll > 3 && ll < 60 {
